@@ -39,7 +39,7 @@ GATES = {
     "contracts-ran": ["Tx.serialize", "Tx.parse", "Tx.hash", "Script.raw_serialize", "Script.parse", "Witness.serialize", "Witness.parse", "encode_varint", "read_varint"],
     "push-lengths": ["push:0", "push:1..74", "push:75", "push:76..255", "push:256..520"],
     "pushdata-forms": ["push:75", "push:76..255", "push:256..520"],
-    "varint-widths-counts": ["incount:>=253", "outcount:>=253", "witcount:>=253", "scriptlen:>=253", "witem:>=65536", "witem:253..65535"],
+    "varint-widths-counts": ["incount:0", "parse:no-inputs", "incount:>=253", "outcount:>=253", "witcount:>=253", "scriptlen:>=253", "witem:>=65536", "witem:253..65535"],
     "tx-forms": ["form:legacy", "form:segwit"],
     "near-template-scripts": ["script:near-template:" + v for v in ("exact", "trailing-opcode", "trailing-push", "leading-opcode", "hash-length", "doubled")],
     "txid": ["txid:witness-edit-same", "txid:nonwitness-edit-differs"],
@@ -229,7 +229,12 @@ def post_tx_parse(args, kwargs, pre, out):
     except (ValueError, KeyError, IndexError):
         return NotImplemented  # not a well-formed encoding: acceptance/rejection is not claimed
     if not ref["ins"]:
-        return NotImplemented
+        ctx.count("parse:no-inputs")
+        if not ref["segwit"] and len(ref["outs"]) == 1:
+            # version 00 01 ...: a legacy transaction without inputs and with one output starts like the segwit marker
+            # and flag; which reading survives depends on the amount bytes - intrinsically ambiguous, only observed
+            ctx.count("observed:no-inputs-one-output-legacy(ambiguous-with-segwit-marker)")
+            return NotImplemented
     case = {"op": "tx-bytes", "raw": data[:end]}
     if out[0] == "exc":
         ctx.violation("tx-parse-raises", f"{out[1]!r}", case)
@@ -384,8 +389,12 @@ def gen_witness(rng, ctx, shape):
 
 def gen_model(rng, ctx, shape="plain", force_push=None):
     segwit = rng.random() < 0.5 or shape in ("manyitems", "bigitem")
-    n_in = rng.choice([1, 1, 2, 3])
+    n_in = rng.choice([1, 1, 2, 3, 1, 2, 0])  # 0: an unfunded template (createrawtransaction [] {...})
     n_out = rng.choice([0, 1, 1, 2, 3])
+    if n_in == 0:
+        ctx.count("incount:0")
+        if not segwit and n_out == 1:
+            n_out = rng.choice([0, 2, 3])  # version 00 01 ... is intrinsically ambiguous with the segwit marker and flag
     if shape == "manyin":
         n_in = rng.choice([252, 253, 254, 255, 256, 300])
     if shape == "manyout":
@@ -486,7 +495,7 @@ def check_txid(ctx, rng, model, txobj):
     if base != tc.txid(model).hex():
         ctx.violation("txid-wrong", f"id() {base}", {"op": "tx-model", "model": model})
     # witness edits leave the id unchanged
-    if model["segwit"]:
+    if model["segwit"] and txobj.tx_ins:
         ti = txobj.tx_ins[rng.randrange(len(txobj.tx_ins))]
         old = ti.witness
         ti.witness = Witness([rng.randbytes(rng.choice([0, 1, 33, 72])) for _ in range(rng.randrange(0, 4))])
@@ -503,7 +512,9 @@ def check_txid(ctx, rng, model, txobj):
     from buidl.timelock import Locktime, Sequence
 
     for e in edits:
-        ti = txobj.tx_ins[rng.randrange(len(txobj.tx_ins))]
+        if e.startswith("in.") and not txobj.tx_ins:
+            continue
+        ti = txobj.tx_ins[rng.randrange(len(txobj.tx_ins))] if txobj.tx_ins else None
         to = txobj.tx_outs[rng.randrange(len(txobj.tx_outs))] if txobj.tx_outs else None
         undo = None
         if e == "version":
